@@ -50,6 +50,10 @@ CHECKS = {
                 text="Generated blocks that push, fold or derive zeros are optimized with PUSH0 enabled and disabled; emitted items, text output, specification entries and printed totals must follow the chosen setting on both sides; -c runs are compared with the unrestricted run.",
                 note="independent cost table vf/cost.py; inputs never contain an item named PUSH0 (solc spells it PUSH 0)",
                 ref="DESIGN.md section 3 C17"),
+    "C10": dict(level="fault_enumeration", technique="property-based testing with a hostile-constant generator + fault injection at the front-end entry; oracle = run completes with an output under CPU/memory budgets, injected failure changes only the faulty block (differential vs fault-free run)",
+                text="Generated contracts with hostile constants/idioms and long blocks run through the real CLI entry under a CPU budget; any escaping exception, budget hit (confirmed in a fresh child under RLIMIT_CPU/RLIMIT_AS) or missing output is a violation; for a share of the contracts the analysis of one block is forced to raise and the output is compared block by block with the fault-free run.",
+                note="bulk runs are in-process with a soft timer (forked children are serialized by this hypervisor); every failure is decided by a forked run under hard limits; fault injection only under the deterministic -greedy back-end",
+                ref="DESIGN.md section 3 C10"),
 }
 
 NOT_YET = {}
